@@ -17,7 +17,7 @@ ID = "C11"
 LEVEL = "model_checking"
 MIN_OUTCOMES = 3
 MANIFEST = {
-    'text': "The space (status of the pattern file) x (status of an unrelated file) x --allow-dirty x config format x file naming (plain, blank, non-ASCII: git quotes those) x spelling of the path in the config (./a.txt, sub/../a.txt, a glob reaching 13 pattern files of one directory with the unrelated file below it) x crowds of 3/12/25 other dirty files x extra flags (--ignore-vcs-tag, --tag-scope branch) is enumerated in real temporary git repositories, so the status text is git's own; the real `update` must abort before modifying anything exactly when the property says so, never block on untracked unrelated files, and when it proceeds the bump commit must not contain edits the user had not staged.",
+    'text': "The space (status of the pattern file) x (status of an unrelated file) x --allow-dirty x config format x file naming (plain, blank, non-ASCII: git quotes those) x spelling of the path in the config (./a.txt, sub/../a.txt, a glob reaching 13 pattern files of one directory with the unrelated file below it, a project that lives in packages/core/ of a larger repository) x crowds of 3/12/25 other dirty files x extra flags (--ignore-vcs-tag, --tag-scope branch) is enumerated in real temporary git repositories, so the status text is git's own; the real `update` must abort before modifying anything exactly when the property says so, never block on untracked unrelated files, and when it proceeds the bump commit must not contain edits the user had not staged.",
     'note': "submodules, merge conflicts and hg status codes are outside the bound; that `git commit` also commits unrelated files the user had staged is git's semantics and only reported",
     'technique': 'explicit-state exploration: exhaustive enumeration of working-tree states in real git repositories, real CLI, state comparison',
 }
